@@ -54,10 +54,10 @@ def reference(par, links, durs):
     return {l for l in leaves if EF(l) + TAIL(l) == length}
 
 
-def build(par, links, attrs):
+def build(par, links, attrs, ids=None):
     from pjplan import Task, WBS
     w = WBS()
-    objs = [Task(i + 1, name='n%d' % (i + 1), **attrs.get(i, {})) for i in range(len(par))]
+    objs = [Task(i + 1 if ids is None else ids[i], name='n%d' % (i + 1), **attrs.get(i, {})) for i in range(len(par))]
     for i, t in enumerate(objs):
         if par[i] is None:
             w.roots.append(t)
@@ -152,6 +152,35 @@ def _work(chunk):
                 if len(acc.samples) < 2 and links and len(exp) < len(lv):
                     acc.sample(dict(case, critical=sorted(exp)))
     return acc
+
+
+RESERVED_IDS = [('end', 'start', 'finish'), ('start', 'x', 'end'), (0, '0', -1), ('', 'None', 'root'), ((1, 2), 1, 2)]
+
+
+def reserved_id_checks(acc):
+    """Ids that an implementation might use for its own bookkeeping (virtual start / finish nodes, a root marker), falsy ids, ids
+    that print alike, a tuple id: every structure of <= 3 tasks, a few durations."""
+    for par, links in LY.structures(3, 2, 3):
+        if LY.leaf_cycle(par, links):
+            continue
+        n = len(par)
+        lv = [k for k in range(n) if LY.is_leaf(par, k)]
+        for ids in RESERVED_IDS:
+            for ests in ((8,) * len(lv), (3, 8, 5)[:len(lv)], (0,) * len(lv)):
+                attrs = {k: {'estimate': ests[j]} for j, k in enumerate(lv)}
+                durs = {k: Fraction(ests[j]) for j, k in enumerate(lv)}
+                exp = [ids[k] for k in sorted(reference(par, links, durs))]
+                w, objs = build(par, links, attrs, ids=ids[:n])
+                acc.count('evaluations')
+                acc.count('reserved_id_cases')
+                case = {'parents': list(par), 'links': [list(x) for x in links], 'ids': [repr(x) for x in ids[:n]], 'estimates': list(ests)}
+                try:
+                    got = [t.id for t in w.critical_path()]
+                except Exception as ex:  # noqa
+                    acc.violation('C12', f'critical_path/exception-{type(ex).__name__}/unusual-ids', f'critical_path() raised {type(ex).__name__}: {ex}', case)
+                    continue
+                if sorted(map(repr, got)) != sorted(map(repr, exp)):
+                    acc.violation('C12', 'critical_path/different/unusual-ids', f'critical_path() = {got}, zero-float leaves are {exp}', case)
 
 
 def abstract_of(w):
@@ -260,6 +289,7 @@ def run(rep):
     nw = runtime.n_workers()
     k = nw * 4
     runtime.run_chunks(_work, [(i, k) for i in range(k)] + [(-i - 1, nw) for i in range(nw)], rep.acc)
+    reserved_id_checks(rep.acc)
     c = rep.acc.counters
     rep.coverage.update({
         'evaluations': c['evaluations'], 'distinct_nontrivial': c['nontrivial'], 'call_edit_call_histories': c['history_cases'],
